@@ -4,6 +4,10 @@ import json, os, subprocess
 ROOT = os.path.dirname(os.path.dirname(os.path.abspath(__file__)))
 
 CHECKS = {
+    "C12": dict(level="model_checking", design="DESIGN.md section 5 C12",
+                technique="TLC model checking that the kinding rules (Types.tla) are sound w.r.t. Values.tla + TLC validation of the real checker's verdicts and the real runs' outcomes",
+                text="D: for every expression of depth <= 2 over typed leaves TLC shows that an expression the kinding rules accept never evaluates to Type mismatch in Values.tla and that its result has the predicted kind. V: every depth-1 expression (10 binary and 2 unary operators, parentheses, 10 built-ins, subscripts over 6 typed leaves) and seeded depth-2 compositions are placed at 18 syntactic positions (assignment, parentheses, PRINT list, user function argument, subscript, CASE list, unary/binary operand, built-in argument, IF condition, FOR bound, nested call arguments); TLC checks that an ill-kinded statement is rejected as a type error in that statement and that an accepted statement never ends in error 13 or a wrong-kind panic when run; six kinds of single ill-forming edit (string operand, missing label, argument count, by-reference type, duplicate definition, NEXT for the wrong counter) applied to accepted programs must be rejected with the matching family located in the edited statement; consistent renaming must not change the verdict class.",
+                note="Trusted: renderer, TLC. Kinds (number/string) only; a well-kinded statement the checker rejects is not judged (the property constrains acceptance); renaming compared on the implementation against itself."),
     "C13": dict(level="model_checking", design="DESIGN.md section 5 C13",
                 technique="TLC model checking of the resolution rules (Names.tla) + TLC validation of the real checker's verdict and the real run's output on declaration/use histories",
                 text="D: on every DEFtype configuration of the first letter, every declaration state of a base name, every pair of suffixes and both scopes TLC checks the statements of C13 on Names.tla (default SINGLE unless DEFtype, bare = default-suffixed, five suffixes distinct, extended declaration excludes other suffixes, local by default). V: the 5 x 7 DEFtype letter-range configurations, every single and every pair (sampled in quick) of declaration/use statements of one base name in main, suffix probes after DIM AS / CONST in main and in a SUB, main declaration x pairs of SUB statements, and seeded random histories over two bases are rendered with random letter case per occurrence, checked and run by the real code; TLC compares verdict and printed values with the three-valued oracle.",
